@@ -368,4 +368,12 @@ def run(model, R):
     R.guard('AGREEMENT', None, 'todict/fromdict', dict_keys, model, R)
     R.guard('AGREEMENT', None, 'literal/json', literal_and_json, model, R)
     R.guard('PICKLE', None, 'pickle', pickle_rules, model, R)
+    # reloading depends on: the raw/ordered paths of _fromlist (C06's obligations) and fromdict accepting every valid document (C19's)
+    from . import c06, c19
+    from .common import flag_clobber
+    R.guard('ORDER', None, '_fromlist paths', c06.fromlist_rules, model, R)
+    R.guard('GUARD', None, 'fromdict validation', c19.fromdict_rules, model, R)
+    flag_clobber(R, model.func('lattices.Data._fromlist'), ['unordered'])
+    flag_clobber(R, model.func('contexts.Data.fromdict'), ['ignore_lattice', 'require_lattice', 'raw'])
+    flag_clobber(R, model.func('contexts.Data.fromjson'), ['ignore_lattice', 'require_lattice', 'raw'])
     return __doc__.strip()
